@@ -50,6 +50,7 @@ type Obs struct {
 	UnscopedFind, UnscopedDel       []int64
 	UnscopedSQL                     string
 	Assoc, NAssoc                   [][]int64
+	UAssoc, NUAssoc                 [][]int64
 	NUnscopedFind                   []int64
 	Errs                            []string `json:"errs"`
 }
@@ -299,9 +300,9 @@ func (e *env) run(in Input) Obs {
 	fail("reset", e.reset(in, false))
 	{
 		var errs []string
-		o.NAssoc, errs = e.assoc(in, false)
+		o.NAssoc, o.NUAssoc, errs = e.assoc(in, false)
 		o.Errs = append(o.Errs, errs...)
-		o.Assoc, errs = e.assoc(in, true)
+		o.Assoc, o.UAssoc, errs = e.assoc(in, true)
 		o.Errs = append(o.Errs, errs...)
 	}
 	reads(&o.NFind, &o.NCount, &o.NFirst, false)
@@ -317,7 +318,7 @@ func (e *env) run(in Input) Obs {
 // assoc runs the association paths on data derived from the case's rows: owner k has the kids
 // whose id % 3 == k; kid i has a soft-deleted twin i+100; keeper j (1..3) has a soft-deleted twin
 // j+100 to which pet j+10 points.
-func (e *env) assoc(in Input, twins bool) ([][]int64, []string) {
+func (e *env) assoc(in Input, twins bool) ([][]int64, [][]int64, []string) {
 	db := e.db
 	var errs []string
 	fail := func(w string, err error) {
@@ -343,7 +344,7 @@ func (e *env) assoc(in Input, twins bool) ([][]int64, []string) {
 			fail("ins", db.Exec("INSERT INTO kids (id, owner_id, age, deleted_at) VALUES (?,?,?,?)", r.ID+100, r.ID%3+1, r.Age, t1).Error)
 		}
 	}
-	var out [][]int64
+	var out, uout [][]int64
 	kidIDs := func(ks []Kid) []int64 {
 		ids := []int64{}
 		for _, k := range ks {
@@ -413,7 +414,56 @@ func (e *env) assoc(in Input, twins bool) ([][]int64, []string) {
 		ids = append(ids, p.ID)
 	}
 	out = append(out, ids)
-	return out, errs
+	// joins with explicit ON conditions given as a *gorm.DB
+	keeperIDs := func(ps []Pet, onlyLivePets bool) []int64 {
+		ids := []int64{}
+		for _, p := range ps {
+			if onlyLivePets && p.ID >= 10 {
+				if p.Keeper != nil {
+					errs = append(errs, fmt.Sprintf("join-on: pet %d got soft-deleted keeper %d", p.ID, p.Keeper.ID))
+				}
+				continue
+			}
+			if p.Keeper != nil {
+				ids = append(ids, p.Keeper.ID)
+			} else {
+				ids = append(ids, 0)
+			}
+		}
+		return ids
+	}
+	pets = nil
+	fail("joins_on", db.Joins("Keeper", db.Where("name = ?", "k")).Order("pets.id").Find(&pets).Error)
+	out = append(out, keeperIDs(pets, true))
+	pets = nil
+	fail("innerjoins_on", db.InnerJoins("Keeper", db.Where("name = ? OR name = ?", "k", "zz")).Order("pets.id").Find(&pets).Error)
+	ids = []int64{}
+	for _, p := range pets {
+		ids = append(ids, p.ID)
+	}
+	out = append(out, ids)
+	// Unscoped: the marked rows are visible again, also through joins and preloads
+	pets = nil
+	fail("unscoped_joins", db.Unscoped().Joins("Keeper").Order("pets.id").Find(&pets).Error)
+	uout = append(uout, keeperIDs(pets, false))
+	pets = nil
+	fail("unscoped_innerjoins", db.Unscoped().InnerJoins("Keeper").Order("pets.id").Find(&pets).Error)
+	ids = []int64{}
+	for _, p := range pets {
+		ids = append(ids, p.ID)
+	}
+	for i := range ids { // report keeper-side ids so that twin = original + 100 holds
+		if ids[i] > 10 {
+			ids[i] += 90
+		}
+	}
+	uout = append(uout, ids)
+	owners = nil
+	fail("unscoped_preload", db.Preload("Kids", func(d *gorm.DB) *gorm.DB { return d.Unscoped() }).Order("id").Find(&owners).Error)
+	for _, o := range owners {
+		uout = append(uout, kidIDs(o.Kids))
+	}
+	return out, uout, errs
 }
 
 func gOZ(p *int64) string {
@@ -439,7 +489,8 @@ func term(in Input, o Obs) string {
 		lib.ZList(o.Update), lib.ZList(o.NUpdate), lib.ZList(o.UpdTwins),
 		lib.ZList(o.Del), lib.ZList(o.NDel), lib.ZList(o.DelTwins), lib.ZList(o.DelAgain),
 		lib.ZList(o.UnscopedFind), lib.ZList(o.NUnscopedFind), lib.ZList(o.UnscopedDel),
-		lib.ListOf(o.Assoc, lib.ZList), lib.ListOf(o.NAssoc, lib.ZList), lib.Z(int64(len(o.Errs))))
+		lib.ListOf(o.Assoc, lib.ZList), lib.ListOf(o.NAssoc, lib.ZList),
+		lib.ListOf(o.UAssoc, lib.ZList), lib.ListOf(o.NUAssoc, lib.ZList), lib.Z(int64(len(o.Errs))))
 }
 
 func main() {
